@@ -7,9 +7,10 @@ import FluentProofs.ParserLocalLoop
 Junk content verbatim, `wrote_non_junk_entry` reset after it).  `JGood prev es` collects what the round trip needs
 to know about the Junk entries of `es`:
 
-* about the bytes of a Junk `c` (decidable): not empty, does not end with `\r`, ends with `\n` unless it is the last
-  entry, its first line is not blank (`nonBlankStart`), and — behind a message or term — its first line is one on which
-  `get_pattern` stops (`stopperText`);
+* about the bytes of a Junk `c` (decidable): not empty, ends with `\n` unless it is the last entry, its first line is
+  not blank (`nonBlankStart`: a lone `\r` counts as a non-blank byte), and — behind a message or term — its first line
+  is one on which `get_pattern` stops (`stopperText`).  Sources with lone `\r` are covered: a Junk may start with a
+  lone `\r` and may end with one (only as the last entry, at the end of input);
 * about the parser (a statement over ALL sources `s`): wherever the text `c ++ (text of the following entries)` stands at
   a line start `P` and runs to the end of `s`, `get_entry` fails at `P` and junk recovery ends exactly behind `c`
   (`JunkAt`), and — behind a message or term — `get_attributes` finds no attribute at `P` (`AttrStopAt`).
@@ -82,21 +83,51 @@ theorem firstNonSpace_at {c : Bytes} {k : Nat} {b : UInt8} (h : firstNonSpace c 
       obtain ⟨rfl, rfl⟩ := h
       exact ⟨fun j hj => by omega, hat.1, hx, by simp⟩
 
-/-- the first line is not blank: spaces, then a byte other than a space, `\n`, `\r` -/
+/-- a `\r` at position `k` of `c` is not followed by `\n` in `c` (it is a lone `\r`, or `c` ends with it) -/
+def crOK (c : Bytes) (k : Nat) (b : UInt8) : Bool := b != 13 || c[k + 1]? != some 10
+
+/-- the first line is not blank: spaces, then a byte other than a space, `\n`, or the `\r` of a `\r\n` -/
 def nonBlankStart (c : Bytes) : Bool :=
   match firstNonSpace c with
-  | some (_, b) => b != 10 && b != 13
+  | some (k, b) => b != 10 && crOK c k b
   | none => false
 
-/-- a line on which `get_pattern` stops: a byte other than space, `\n`, `\r`, `{` in column 0, or an indented
-`.` `[` `*` `}` -/
+/-- a line on which `get_pattern` stops: a byte other than space, `\n`, the `\r` of a `\r\n`, `{` in column 0, or an
+indented `.` `[` `*` `}` -/
 def stopperText (c : Bytes) : Bool :=
   match firstNonSpace c with
-  | some (0, b) => b != 10 && b != 13 && b != 123
+  | some (0, b) => b != 10 && crOK c 0 b && b != 123
   | some (_ + 1, b) => b == 46 || b == 91 || b == 42 || b == 125
   | none => false
 
-theorem blockStop_of_text {c : Bytes} (h : nonBlankStart c = true) {s : Src} {P : Nat} (hat : At s P c) : BlockStop s P := by
+/-- a `\r` of the text `c` that is not followed by `\n` in `c` is not followed by `\n` in a source that holds `c`, if `c`
+ends with `\n` or at the end of the source -/
+theorem crOK_at {c : Bytes} {s : Src} {P k : Nat} {b : UInt8} (hat : At s P c)
+    (hend : c.getLast? = some 10 ∨ P + c.length = s.size) (hk : k < c.length) (hb : s[P + k]? = some b)
+    (h : crOK c k b = true) : b = 13 → s[P + k + 1]? ≠ some 10 := by
+  intro h13
+  subst h13
+  simp only [crOK, bne_self_eq_false, Bool.false_or, bne_iff_ne, ne_eq] at h
+  by_cases hk1 : k + 1 < c.length
+  · have hg := at_get hat (k + 1) hk1
+    rw [show P + k + 1 = P + (k + 1) by omega, hg]
+    rw [List.getElem?_eq_getElem hk1] at h
+    exact h
+  · have hlen : c.length = k + 1 := by omega
+    rcases hend with h10 | hsz
+    · exfalso
+      rw [List.getLast?_eq_getElem?, hlen, Nat.add_sub_cancel, List.getElem?_eq_getElem hk] at h10
+      have hg := at_get hat k hk
+      rw [hb] at hg
+      injection hg with hg
+      injection h10 with h10
+      rw [← hg] at h10
+      exact absurd h10 (by decide)
+    · have : s[P + k + 1]? = none := by simp; omega
+      rw [this]; nofun
+
+theorem blockStop_of_text {c : Bytes} (h : nonBlankStart c = true) {s : Src} {P : Nat} (hat : At s P c)
+    (hend : c.getLast? = some 10 ∨ P + c.length = s.size) : BlockStop s P := by
   unfold nonBlankStart at h
   cases hf : firstNonSpace c with
   | none => rw [hf] at h; cases h
@@ -104,31 +135,27 @@ theorem blockStop_of_text {c : Bytes} (h : nonBlankStart c = true) {s : Src} {P 
     obtain ⟨k, b⟩ := kb
     rw [hf] at h
     simp only [Bool.and_eq_true, bne_iff_ne, ne_eq] at h
-    obtain ⟨h1, h2, h3, _⟩ := firstNonSpace_at hf hat
+    obtain ⟨h1, h2, h3, h4⟩ := firstNonSpace_at hf hat
     intro n c'
     have hsbi : skipBlankInline s P = P + k := skipBlankInline_run s k P h1 (by rw [h2]; simpa using h3)
-    have heol : skipEol s (P + k) = none := by
-      unfold skipEol; rw [h2]
-      split
-      · rename_i hh; cases hh; exact absurd rfl h.1
-      · rename_i hh; cases hh; exact absurd rfl h.2
-      · rfl
+    have heol : skipEol s (P + k) = none := skipEol_lone s (P + k) b h2 h.1 (crOK_at hat hend h4 h2 h.2)
     rw [skipBlankBlockGo, hsbi, heol]
     have := get_lt h2
     simp [this]
 
-theorem stopper_of_text {c : Bytes} (h : stopperText c = true) {s : Src} {P : Nat} (hat : At s P c) : Stopper s P := by
+theorem stopper_of_text {c : Bytes} (h : stopperText c = true) {s : Src} {P : Nat} (hat : At s P c)
+    (hend : c.getLast? = some 10 ∨ P + c.length = s.size) : Stopper s P := by
   unfold stopperText at h
   cases hf : firstNonSpace c with
   | none => rw [hf] at h; cases h
   | some kb =>
     obtain ⟨k, b⟩ := kb
     rw [hf] at h
-    obtain ⟨h1, h2, h3, _⟩ := firstNonSpace_at hf hat
+    obtain ⟨h1, h2, h3, h4⟩ := firstNonSpace_at hf hat
     cases k with
     | zero =>
       simp only [Bool.and_eq_true, bne_iff_ne, ne_eq] at h
-      exact Or.inr (Or.inl ⟨b, by simpa using h2, h3, h.1.1, h.1.2, h.2⟩)
+      exact Or.inr (Or.inl ⟨b, by simpa using h2, h3, h.1.1, crOK_at hat hend h4 h2 h.1.2, h.2⟩)
     | succ k =>
       simp only [Bool.or_eq_true, beq_iff_eq] at h
       exact Or.inr (Or.inr ⟨k + 1, b, by omega, h1, h2, by
@@ -155,7 +182,7 @@ def JGood : Bool → List (Entry Bytes) → Prop
   | prev, e :: es =>
     match e with
     | .junk c =>
-      c ≠ [] ∧ c.getLast? ≠ some 13 ∧ (c.getLast? = some 10 ∨ es = []) ∧ nonBlankStart c = true ∧
+      c ≠ [] ∧ (c.getLast? = some 10 ∨ es = []) ∧ nonBlankStart c = true ∧
         (prev = true → stopperText c = true) ∧
         (∀ (s : Src) (P : Nat), AsciiThenBoundary s → LS s P → At s P (c ++ resTextJ false es) →
           P + (c ++ resTextJ false es).length = s.size → JunkAt s P c ∧ (prev = true → AttrStopAt s P)) ∧
@@ -163,7 +190,7 @@ def JGood : Bool → List (Entry Bytes) → Prop
     | e => rtEntry e = true ∧ JGood (isMT e) es
 
 theorem JGood.junk {prev : Bool} {c : Bytes} {es : List (Entry Bytes)} (h : JGood prev (.junk c :: es)) :
-    c ≠ [] ∧ c.getLast? ≠ some 13 ∧ (c.getLast? = some 10 ∨ es = []) ∧ nonBlankStart c = true ∧
+    c ≠ [] ∧ (c.getLast? = some 10 ∨ es = []) ∧ nonBlankStart c = true ∧
       (prev = true → stopperText c = true) ∧
       (∀ (s : Src) (P : Nat), AsciiThenBoundary s → LS s P → At s P (c ++ resTextJ false es) →
         P + (c ++ resTextJ false es).length = s.size → JunkAt s P c ∧ (prev = true → AttrStopAt s P)) ∧
@@ -194,6 +221,13 @@ theorem JGood.of_rt (prev : Bool) (es : List (Entry Bytes)) (h : ∀ e ∈ es, r
     | groupComment c => exact ⟨he, ih'⟩
     | resourceComment c => exact ⟨he, ih'⟩
 
+/-- a Junk text ends with `\n`, or the source ends behind it -/
+theorem junk_hend {c : Bytes} {es : List (Entry Bytes)} {s : Src} {P : Nat} (h : c.getLast? = some 10 ∨ es = [])
+    (hsz : P + (c ++ resTextJ false es).length = s.size) : c.getLast? = some 10 ∨ P + c.length = s.size := by
+  rcases h with h | h
+  · exact Or.inl h
+  · subst h; right; simpa [resTextJ] using hsz
+
 /-! ## the serializer writes `resTextJ` -/
 
 theorem serResourceGo_textJ (r : List (Entry Bytes)) : ∀ (prev : Bool), JGood prev r →
@@ -205,12 +239,21 @@ theorem serResourceGo_textJ (r : List (Entry Bytes)) : ∀ (prev : Bool), JGood 
     intro prev hg w nl b hw
     by_cases hj : isJunk e = true
     · obtain ⟨c, rfl⟩ : ∃ c, e = .junk c := by cases e <;> simp_all [isJunk]
-      obtain ⟨hne, h13, _, _, _, _, hrest⟩ := hg.junk
-      obtain ⟨hb1, hw1⟩ := ws0_writeLiteral hw c hne h13
-      obtain ⟨w2, hs2, hb2⟩ := ih false hrest (w.writeLiteral c) (endsNl c) false hw1
-      refine ⟨w2, ?_, ?_⟩
-      · simp only [serResourceGo, Bool.not_true, Bool.false_eq_true, if_false]; exact hs2
-      · rw [hb2, hb1, resTextJ_junk]; apply Array.ext'; simp
+      obtain ⟨hne, hlast, _, _, _, hrest⟩ := hg.junk
+      rcases hlast with h10 | hnil
+      · have h13 : c.getLast? ≠ some 13 := by rw [h10]; decide
+        obtain ⟨hb1, hw1⟩ := ws0_writeLiteral hw c hne h13
+        obtain ⟨w2, hs2, hb2⟩ := ih false hrest (w.writeLiteral c) (endsNl c) false hw1
+        refine ⟨w2, ?_, ?_⟩
+        · simp only [serResourceGo, Bool.not_true, Bool.false_eq_true, if_false]; exact hs2
+        · rw [hb2, hb1, resTextJ_junk]; apply Array.ext'; simp
+      · -- the last entry: the writer state behind it does not matter
+        subst hnil
+        obtain ⟨hb1, _, _⟩ := wsc_writeLiteral hw.toC c hne
+        rw [hw.2.1] at hb1
+        refine ⟨w.writeLiteral c, ?_, ?_⟩
+        · simp only [serResourceGo, Bool.not_true, Bool.false_eq_true, if_false]
+        · rw [hb1, resTextJ_junk]; apply Array.ext'; cases nl <;> simp [spacesL, resTextJ]
     · have hj' : isJunk e = false := by simpa using hj
       obtain ⟨he, hrest⟩ := hg.entry hj'
       obtain ⟨w1, hb1, hw1, hs1⟩ := serEntry_text true e he es w nl b hw
@@ -279,13 +322,14 @@ theorem follow_resJ {s : Src} (hs : AsciiThenBoundary s) (prev : Bool) (Q : Nat)
   | cons e es =>
     by_cases hj : isJunk e = true
     · obtain ⟨c, rfl⟩ : ∃ c, e = .junk c := by cases e <;> simp_all [isJunk]
-      obtain ⟨hne, _, _, hnb, hstop, hsem, _⟩ := hg.junk
+      obtain ⟨hne, hlast, hnb, hstop, hsem, _⟩ := hg.junk
       rw [resTextJ_junk] at hat hsz
+      have hend := junk_hend hlast hsz
       have hatc : At s Q c := ((at_append s Q c _).mp hat).1
       have hle : Q ≤ s.size := by rw [List.length_append] at hsz; omega
       simp only [leadRes, lead, Nat.add_zero]
-      refine ⟨fun j h1 h2 => by omega, fun hp => ?_, blockStop_of_text hnb hatc, hle⟩
-      exact ⟨stopper_of_text (hstop hp) hatc, blockStop_of_text hnb hatc, (hsem s Q hs hls hat hsz).2 hp⟩
+      refine ⟨fun j h1 h2 => by omega, fun hp => ?_, blockStop_of_text hnb hatc hend, hle⟩
+      exact ⟨stopper_of_text (hstop hp) hatc hend, blockStop_of_text hnb hatc hend, (hsem s Q hs hls hat hsz).2 hp⟩
     · have hj' : isJunk e = false := by simpa using hj
       obtain ⟨he, _⟩ := hg.entry hj'
       rw [resTextJ_entry true e es he] at hat hsz
@@ -320,7 +364,7 @@ theorem parseLoop_textJ {s : Src} (hs : AsciiThenBoundary s) (es : List (Entry B
     by_cases hj : isJunk e = true
     · -- a Junk entry
       obtain ⟨c, rfl⟩ : ∃ c, e = .junk c := by cases e <;> simp_all [isJunk]
-      obtain ⟨hne, _, hlast, _, _, hsem, hrest⟩ := hg.junk
+      obtain ⟨hne, hlast, _, _, hsem, hrest⟩ := hg.junk
       rw [resTextJ_junk] at hat hsz
       obtain ⟨⟨e0, q, hge, hsk⟩, _⟩ := hsem s P hs (hls (by simp)) hat hsz
       rw [at_append] at hat
@@ -347,8 +391,10 @@ theorem parseLoop_textJ {s : Src} (hs : AsciiThenBoundary s) (es : List (Entry B
         | cons e' es' =>
           by_cases hj' : isJunk e' = true
           · obtain ⟨c', rfl⟩ : ∃ c', e' = .junk c' := by cases e' <;> simp_all [isJunk]
-            rw [resTextJ_junk, at_append] at hatR
-            exact blockStop_of_text hrest.junk.2.2.2.1 hatR.1
+            rw [resTextJ_junk] at hatR hsz
+            have hend := junk_hend (s := s) (P := P + c.length) hrest.junk.2.1 (by omega)
+            rw [at_append] at hatR
+            exact blockStop_of_text hrest.junk.2.2.1 hatR.1 hend
           · have hj'' : isJunk e' = false := by simpa using hj'
             obtain ⟨he', _⟩ := hrest.entry hj''
             rw [resTextJ_entry false e' es' he'] at hatR
@@ -416,8 +462,8 @@ theorem JGood.canon {prev : Bool} {es : List (Entry Bytes)} (h : JGood prev es) 
   | cons e es ih =>
     by_cases hj : isJunk e = true
     · obtain ⟨c, rfl⟩ : ∃ c, e = .junk c := by cases e <;> simp_all [isJunk]
-      obtain ⟨h1, h2, h3, h4, h5, h6, h7⟩ := h.junk
-      refine ⟨h1, h2, ?_, h4, h5, ?_, ih h7⟩
+      obtain ⟨h1, h3, h4, h5, h6, h7⟩ := h.junk
+      refine ⟨h1, ?_, h4, h5, ?_, ih h7⟩
       · rcases h3 with h3 | h3
         · exact Or.inl h3
         · exact Or.inr (by rw [h3]; rfl)
@@ -448,8 +494,10 @@ theorem start_resJ {s : Src} (es : List (Entry Bytes)) (hg : JGood false es) (ha
   | cons e es =>
     by_cases hj : isJunk e = true
     · obtain ⟨c, rfl⟩ : ∃ c, e = .junk c := by cases e <;> simp_all [isJunk]
-      rw [resTextJ_junk, at_append] at hat
-      exact (blockStop_of_text hg.junk.2.2.2.1 hat.1).sbb
+      rw [resTextJ_junk] at hat hsz
+      have hend := junk_hend (s := s) (P := 0) hg.junk.2.1 (by omega)
+      rw [at_append] at hat
+      exact (blockStop_of_text hg.junk.2.2.1 hat.1 hend).sbb
     · have hj' : isJunk e = false := by simpa using hj
       obtain ⟨he, _⟩ := hg.entry hj'
       rw [resTextJ_entry false e es he] at hat
